@@ -119,7 +119,11 @@ def generate(seed: int, tier: str = "quick") -> dict:
             order = ["initialize", "before_bar", "trigger", "on_bar", "after_bar", "notify"]
             program = A.bystander_program(R.sub(seed, "bystander_ops"), world, by, nb) + program
             program = [p for _, p in sorted(enumerate(program), key=lambda e: (e[1]["bar"], order.index(e[1]["phase"]), e[0]))]
-    return {"property": ID, "seed": seed, "world": world, "program": program, "faults": faults, "opts": {"sweep": rw.random() < 0.5}}
+    opts = {"sweep": rw.random() < 0.5}
+    if R.sub(seed, "deepcopy").random() < 0.12:
+        opts["deepcopy_markets"] = True  # the markets that run are deep copies of the configured ones (BacktestManager's way)
+        faults.append({"kind": "markets_are_deep_copies_of_the_configured_ones"})
+    return {"property": ID, "seed": seed, "world": world, "program": program, "faults": faults, "opts": opts}
 
 
 # --------------------------------------------------------------------------------------------------- oracle
